@@ -455,8 +455,11 @@ Qed.
    of fuel) and yields exactly the automaton's tokens *)
 Theorem tokenize_lex : forall b pos data, (0 < b)%nat -> tokenize b pos data = Some (lex pos data).
 Proof.
-  intros b pos data Hb. unfold tokenize, lex.
-  rewrite feed_chunks_ok, chunks_concat by (auto; lia). reflexivity.
+  intros b pos data Hb. unfold tokenize, lex, flush.
+  rewrite feed_chunks_ok, chunks_concat by (auto; lia).
+  rewrite feed_ok.
+  - rewrite run_app. reflexivity.
+  - unfold feed_fuel. cbn [length]. pose proof (rank_le2 (lmode (run (init pos) data))). lia.
 Qed.
 
 Corollary tokenize_bufsize_independent : forall b1 b2 pos data, (0 < b1)%nat -> (0 < b2)%nat ->
